@@ -31,3 +31,9 @@ def collect(P):
     g = "query-grammar/src/query_grammar.rs"
     _char_table(P, "QG_SPECIAL_CHARS", g, r"const SPECIAL_CHARS: &\[char\] = &\[(.*?)\];")
     _char_table(P, "QG_ESCAPE_IN_WORD", g, r"const ESCAPE_IN_WORD: &\[char\] = &\[(.*?)\];")
+    # shape of `literal`: does it turn an exists-leaf without field name into a parse error (map_res + Err)
+    # instead of reaching UserInputLeaf::set_field(None) (expect -> panic)?   1 = rejects, 0 = old shape
+    T = r"(?:(?!\nfn ).)*?"
+    P.flag("QG_LITERAL_REJECTS_BARE_EXISTS", g,
+           r"fn literal\(inp: &str\) -> IResult<&str, UserInputAst> \{" + T + r"map_res\(" + T +
+           r"field_name\.is_none\(\) && matches!\(leaf, UserInputLeaf::Exists \{ \.\. \}\)" + T + r"return Err\(")
